@@ -1,6 +1,6 @@
 (* C09 — cohort planner sound: labels partitioned, blocks covered, members counted once. *)
 From Coq Require Import ZArith String List Bool Permutation.
-From Flox Require Import Factorize Rechunk Cohorts CohortsLaw.
+From Flox Require Import Factorize Rechunk Cohorts CohortsLaw CohortsMerge.
 Import ListNotations.
 Open Scope Z_scope.
 
@@ -19,5 +19,26 @@ Theorem C09_exact_cohorts_sound :
     keys_distinct gs /\ Permutation (all_labels gs) (map fst lc) /\ groups_exact lc gs.
 Proof. exact group_by_chunks_spec. Qed.
 
+(* EVERY multi-block branch of the planner, including the containment-merging loop (whatever the
+   thresholded rows and their visiting order): the cohorts returned list every present label exactly
+   once, and the block set attached to a cohort contains every block holding a member of its labels *)
+Theorem C09_planner_partitions_and_covers :
+  forall blocks nlabels all_size_one merge m cs,
+    (1 < length blocks)%nat ->
+    find_group_cohorts blocks nlabels all_size_one merge = Some (m, cs) -> cs <> [] ->
+    let lc := label_chunks blocks nlabels in
+    Permutation (all_labels cs) (map fst lc) /\ covers lc cs.
+Proof. exact find_group_cohorts_sound. Qed.
+
+(* 'blockwise' is proposed over several blocks only if every present label is confined to one block *)
+Theorem C09_blockwise_only_if_confined :
+  forall blocks nlabels all_size_one merge cs,
+    (1 < length blocks)%nat ->
+    find_group_cohorts blocks nlabels all_size_one merge = Some (Blockwise, cs) ->
+    forall x ch, In (x, ch) (label_chunks blocks nlabels) -> length ch = 1%nat.
+Proof. exact blockwise_only_if_confined. Qed.
+
 Print Assumptions C09_incidence_exact.
 Print Assumptions C09_exact_cohorts_sound.
+Print Assumptions C09_planner_partitions_and_covers.
+Print Assumptions C09_blockwise_only_if_confined.
